@@ -6,6 +6,7 @@ package main
 // mismatch the raw stores are diffed to name the record.
 
 import (
+	"encoding/json"
 	"bytes"
 	"crypto/sha256"
 	"encoding/hex"
@@ -385,9 +386,37 @@ func runC01(r *Rec) {
 			if rep == 1 {
 				ra = restarts
 			}
+			// every replica runs on a host in another time zone (the process-wide local zone is part of the environment no
+			// consensus code may depend on)
+			savedLocal := time.Local
+			time.Local = c01Zones[rep%len(c01Zones)]
+			if rep == 0 && h >= nOld {
+				// twice during the history the state of replica 0 is exported and new chains are started from the export on
+				// hosts in three time zones (see c01ImportZones)
+				at := map[int]bool{len(hist) / 3: true, 2 * len(hist) / 3: true}
+				lbl := label
+				withHistory := 0
+				c01AfterBlock = func(bi int, w *World) {
+					// ... and at up to three heights at which the state holds records keyed by a time stamp (basket mint /
+					// burn / swap history inside its limits period)
+					ctx := w.ReadCtx()
+					timed := len(w.app.BasketKeeper.GetAllMintAmounts(ctx))+len(w.app.BasketKeeper.GetAllBurnAmounts(ctx))+len(w.app.BasketKeeper.GetAllSwapAmounts(ctx)) > 0
+					if at[bi] || (timed && withHistory < 3 && bi%2 == 0) {
+						if timed {
+							withHistory++
+						}
+						c01ImportZones(r, fmt.Sprintf("%s@block%d", lbl, bi+1), w)
+					}
+				}
+			}
 			o, w := c01RunRestart(hist, nAcc, nVal, time.Duration(rep)*time.Millisecond, ra)
+			c01AfterBlock = nil
+			time.Local = savedLocal
 			all = append(all, o)
 			worlds = append(worlds, w)
+		}
+		if h >= nOld && len(all[0]) == len(hist) && all[0][len(hist)-1].panicAt == "" {
+			c01ImportZones(r, label, worlds[0])
 		}
 		r.Count(fmt.Sprintf("restarts-of-replica-1:%d", len(restarts)))
 		// and one re-run of "the same replica", later
@@ -487,4 +516,62 @@ func runC01(r *Rec) {
 	// regenerated table + this replica run; the model theorems are about machines that take no environment)
 	r.Mark("replica runs done")
 	r.Extra["rule"] = fmt.Sprintf("%d old-style histories x %d blocks (bank send/multisend, identity records, polls, proposals + votes, staking pools + delegations, custody records with 3-entry maps in every second history) and %d rich histories x %d blocks generated by richGenerate (signed transactions of every module's message types incl. proposals that pass and are enacted, time jumps over every period, absences up to inactivation, double-sign evidence, changing proposers, keeper-level set-up replayed by every replica) on %d replicas + 1 re-run started at different instants; compared after every block: app hash, per-tx result digest (code, data, events), validator updates; raw store diff on mismatch", nOld, nBlocks, nRich, nRichBlocks, k)
+}
+
+var c01Zones = []*time.Location{time.UTC, time.FixedZone("EST", -5*3600), time.FixedZone("JST", 9*3600), time.FixedZone("NPT", 5*3600+45*60)}
+
+// c01ImportZones: the state of a replica is exported once and new chains are started from that export on hosts in
+// different time zones; after InitChain and the first commit all of them must report the same application hash.
+func c01ImportZones(r *Rec, label string, w *World) {
+	if c12Probe(func() { w.app.CustomGovKeeper.AllDataRegistry(w.ReadCtx()) }) != nil {
+		return // the exporter panics on such a state (recorded finding of C12)
+	}
+	exp, err := w.app.ExportAppStateAndValidators(false, nil)
+	if err != nil {
+		return
+	}
+	// what the export carries that is keyed or stamped by time (evidence of what the comparison below exercises)
+	var top map[string]json.RawMessage
+	if json.Unmarshal(exp.AppState, &top) == nil {
+		var bg struct {
+			HistoricalMints []json.RawMessage `json:"historical_mints"`
+			HistoricalBurns []json.RawMessage `json:"historical_burns"`
+			HistoricalSwaps []json.RawMessage `json:"historical_swaps"`
+		}
+		if json.Unmarshal(top["basket"], &bg) == nil && len(bg.HistoricalMints)+len(bg.HistoricalBurns)+len(bg.HistoricalSwaps) > 0 {
+			r.Count("import-zones:export-with-basket-history")
+		}
+	}
+	var hashes []string
+	var worlds []*World
+	for _, z := range c01Zones[:3] {
+		saved := time.Local
+		time.Local = z
+		w2, p := c12Import(exp.AppState, w.t0, w.height)
+		if p == nil {
+			w2.app.Commit()
+			hashes = append(hashes, hex.EncodeToString(w2.app.LastCommitID().Hash))
+			worlds = append(worlds, w2)
+		}
+		time.Local = saved
+	}
+	r.Count("import-zones:chains=" + fmt.Sprint(len(hashes)))
+	for i := 1; i < len(hashes); i++ {
+		if hashes[i] != hashes[0] {
+			var names []string
+			for _, name := range c01Stores {
+				ka, kb := worlds[0].app.GetKey(name), worlds[i].app.GetKey(name)
+				if ka == nil || kb == nil || ka.Name() == "" {
+					continue
+				}
+				ha := worlds[0].app.CommitMultiStore().GetCommitKVStore(ka).LastCommitID().Hash
+				hb := worlds[i].app.CommitMultiStore().GetCommitKVStore(kb).LastCommitID().Hash
+				if !bytes.Equal(ha, hb) {
+					names = append(names, name)
+				}
+			}
+			r.Fail("C01/replicas-diverge/import-under-another-time-zone", fmt.Sprintf("%s: two chains started from the same exported genesis on hosts in the time zones %s and %s report different application hashes after InitChain (%s vs %s; stores %v)", label, c01Zones[0], c01Zones[i], hashes[0][:12], hashes[i][:12], names), nil)
+			break
+		}
+	}
 }
